@@ -158,6 +158,8 @@ def plan (args impl : List String) : Option (String × String) := do
 def calcOp (mode : String) (args impl : List String) : Option (String × String) := do
   let r : Res Int ← match mode, args with
     | "constant", [r, d] => do pure (calcConstant (← hexBytes r) (← hexBytes d))
+    -- with a jitter spelt as text (the model has no opinion on the jitter: any float the flag / YAML decoder accepts)
+    | "constantj", [r, d, _j] => do pure (calcConstant (← hexBytes r) (← hexBytes d))
     | "ramp", [s, e, d, dur] => do pure (calcRamp (← hexBytes s) (← hexBytes e) (← hexBytes d) (← dur.toInt?))
     | "staged", [f, st, d] => do pure (calcStaged (← f.toInt?) (← hexBytes st) (← hexBytes d))
     | "gaussian", [f, sd, w, d] => do
